@@ -50,6 +50,7 @@ RICH_FNS = [
     ("echo", "echo"), ("lower", "lower"), ("len", "len"), ("echo_int", "echo_int"), ("echo_ip", "echo_ip"),
     ("nonempty", "nonempty"), ("show", "show"), ("lit_only", "lit_only"), ("echo_ab", "echo_ab"),
     ("echo_mb", "echo_mb"), ("echo_b", "echo_b"), ("count", "count"), ("join2", "join2"), ("concat", "concat"),
+    ("tally", "tally"),
 ]
 
 # library signatures: params [(kind, ty)], opts [(kind, default value)], ret (None: type of first arg)
@@ -68,6 +69,7 @@ LIB = {
     "count": ([("field", arr("bytes"))], [], "int"),
     "join2": ([("field", "bytes"), ("both", "bytes")], [], "bytes"),
     "boom": ([("field", "bytes")], [], "bytes"),
+    "tally": ([("field", "bytes"), ("both", "int")], [], "bytes"),
     "concat": None,
 }
 
